@@ -497,6 +497,13 @@ def llStep (s : St) (t : List String) : St × List String :=
         let r := if op = "begin" then LinkedList.begin_ s.heap (llOf j) else if op = "end" then some (tailId j)
                  else if op = "rbegin" then LinkedList.rbegin s.heap (llOf j) else some (headId j)
         (s, [s!"P {op} {nameOf r}"])
+    else if op = "fempty" then
+      match parseList? x with
+      | none => (s, ["bad-op"])
+      | some j =>
+        if !isInit s j then (s, ["P skip"]) else
+        let h := LinkedList.setPrev s.heap (tailId j) (some (headId j))
+        (s, [s!"P fempty {if LinkedList.empty h (llOf j) then 1 else 0}"])
     else if op = "remove" then
       match parseNode? x with
       | none => (s, ["bad-op"])
